@@ -638,6 +638,15 @@ structure Policy where
   minScopeV6 : Nat
 deriving Repr
 
+/-- `ecs.Build` on the raw `[ecs]` knobs: a zero ceiling means /24 and /56, a zero floor
+means "the ceiling of that family". (Out-of-range values disable the policy; the harness
+does not generate them.) -/
+def buildPolicy (f4 f6 m4 m6 : Nat) : Policy :=
+  let f4' := if f4 = 0 then 24 else f4
+  let f6' := if f6 = 0 then 56 else f6
+  { forwardV4 := f4', forwardV6 := f6',
+    minScopeV4 := if m4 = 0 then f4' else m4, minScopeV6 := if m6 = 0 then f6' else m6 }
+
 /-- `Policy.Clamp` (edns) followed by `Cache.requestScope`: the client's source
 prefix as forwarded upstream and as the cache probes with it. -/
 def clampSource (p : Policy) (c : Prefix) : Prefix :=
@@ -698,11 +707,14 @@ window and unclaimed (`aged`), and not scoped (`PrefetchEligible`). -/
 def shouldQueuePrefetch (prefetchOn aged : Bool) (e : Entry) : Bool :=
   prefetchOn && aged && e.scope.isNone
 
-/-- `processPrefetch`: ask upstream `prefetchRequest trigger`; the answer (id
-`newId`, echoing the asked question) replaces `expected` by pointer CAS. -/
-def processPrefetch (s : AStore) (key : UInt64) (expected : Entry) (trigger : Req) (newId : Nat) : AStore × Bool :=
+/-- `processPrefetch`: ask upstream `prefetchRequest trigger`; the answer (id `newId`,
+carrying the question `resp` — the asked one unless the upstream rewrote it) replaces
+`expected` by pointer CAS and is retained under ITS OWN question. -/
+def processPrefetch (s : AStore) (key : UInt64) (expected : Entry) (trigger : Req) (newId : Nat)
+    (resp : Option (Bytes × UInt16 × UInt16) := none) : AStore × Bool :=
   let asked := prefetchRequest trigger
-  replaceIfCurrent s key expected newId asked.name asked.qtype asked.qclass none
+  let (n, t, c) := resp.getD (asked.name, asked.qtype, asked.qclass)
+  replaceIfCurrent s key expected newId n t c none
 
 /-! ## The decoded CNAME chase (`Cache.additionalAnswer` through the Queryer) -/
 
